@@ -211,6 +211,32 @@ def _typename(t):
     return "%s.%s" % (getattr(t, "__module__", "?"), getattr(t, "__qualname__", "?"))
 
 
+_cache_attr_memo = {}
+
+
+def _is_cache_attr(t, k):
+    """instance-dict entries that are per-object caches, not part of the value:
+    `sgn0` (a cached_property today), any other name that is a cached_property on
+    the class, and underscore-prefixed names.  They are left out of the canonical
+    form (setting one is not a value-level mutation of an input); cached_property
+    entries are checked for coherence instead (I6), and anything that makes a later
+    result differ is caught by H3/I8."""
+    if k == "sgn0" or (isinstance(k, str) and k.startswith("_")):
+        return True
+    key = (id(t), k)
+    r = _cache_attr_memo.get(key)
+    if r is None or r[0] is not t:
+        hit = False
+        for kls in t.__mro__:
+            a = kls.__dict__.get(k)
+            if a is not None:
+                hit = type(a).__name__ == "cached_property"
+                break
+        r = (t, hit)
+        _cache_attr_memo[key] = r
+    return r[1]
+
+
 def _sortkey(c):
     return json.dumps(c, sort_keys=True, default=str)
 
@@ -246,7 +272,7 @@ def _canon(o, depth, stack):
         if fqb and isinstance(o, fqb):
             d = object.__getattribute__(o, "__dict__")
             out = ["fq", REG.name_of(t), _canon(d.get("n", ["missing"]), depth + 1, stack)]
-            extra = {k: v for k, v in d.items() if k not in ("n", "sgn0")}
+            extra = {k: v for k, v in d.items() if k != "n" and not _is_cache_attr(t, k)}
             if extra:
                 out.append(_canon(extra, depth + 1, stack))
             return out
@@ -267,7 +293,7 @@ def _canon(o, depth, stack):
                 k: v
                 for k, v in d.items()
                 if k not in ("coeffs", "modulus_coeffs", "degree", "mc_tuples",
-                             "FQP_corresponding_FQ_class", "sgn0")
+                             "FQP_corresponding_FQ_class") and not _is_cache_attr(t, k)
             }
             if extra:
                 out.append(_canon(extra, depth + 1, stack))
@@ -474,23 +500,27 @@ def sgn0_incoherent(objs):
     from a fresh evaluation of its class's own sgn0 function, else None."""
     for o in objs:
         d = o.__dict__
-        if "sgn0" not in d:
-            continue
-        desc = None
-        for k in type(o).__mro__:
-            if "sgn0" in k.__dict__:
-                desc = k.__dict__["sgn0"]
-                break
-        f = getattr(desc, "func", None)
-        if f is None:
-            continue
-        try:
-            fresh = f(o)
-        except Exception:
-            continue
-        if canon(fresh) != canon(d["sgn0"]):
-            return "cached sgn0=%r but recomputed %r on %s" % (
-                d["sgn0"], fresh, cjson(canon(o))[:120])
+        for name in list(d):
+            if name in ("n", "coeffs", "modulus_coeffs", "degree", "mc_tuples",
+                        "FQP_corresponding_FQ_class"):
+                continue
+            desc = None
+            for k in type(o).__mro__:
+                if name in k.__dict__:
+                    desc = k.__dict__[name]
+                    break
+            if type(desc).__name__ != "cached_property":
+                continue
+            f = getattr(desc, "func", None)
+            if f is None:
+                continue
+            try:
+                fresh = f(o)
+            except Exception:
+                continue
+            if canon(fresh) != canon(d[name]):
+                return "cached %s=%r but recomputed %r on %s" % (
+                    name, d[name], fresh, cjson(canon(o))[:120])
     return None
 
 
@@ -506,6 +536,17 @@ _SKIP_MODULE_ATTRS = {
     "__builtins__", "__cached__", "__loader__", "__spec__", "__file__", "__path__",
     "__doc__", "__package__", "__name__", "__annotations__",
 }
+
+
+def _is_code_like(v):
+    """Python-level code objects in a namespace: functions and wrappers around
+    them (lru_cache, partial, ...).  Builtins (e.g. a ciphersuite's hashlib
+    function) are data: their canonical form is just (module, name)."""
+    if isinstance(v, (types.FunctionType, types.MethodType)):
+        return True
+    if isinstance(v, (types.BuiltinFunctionType, type)):
+        return False
+    return callable(v) and (hasattr(v, "__wrapped__") or hasattr(v, "func"))
 
 
 def pyecc_modules():
@@ -540,11 +581,15 @@ def snapshot_canon(data_only=False):
                     if data_only and isinstance(
                             av, (types.FunctionType, classmethod, staticmethod, property)):
                         continue
-                    if data_only and type(av).__name__ == "cached_property":
+                    if data_only and (type(av).__name__ == "cached_property" or
+                                      _is_code_like(av)):
+                        # code (also behind wrappers such as lru_cache) is not data
                         continue
                     out["%s:%s.%s" % (mn, name, an)] = canon(av)
                 continue
-            if data_only and isinstance(v, types.FunctionType):
+            if data_only and _is_code_like(v):
+                # functions, builtins and wrappers around them (lru_cache, partial):
+                # code, not data - byte code legitimately differs under -O/-OO
                 continue
             if isinstance(v, types.ModuleType):
                 # sub-module attributes are bound by the import system (and only
@@ -561,10 +606,15 @@ def snapshot(data_only=False):
     return {k: digest(v) for k, v in sc.items()}, {k for k, v in sc.items() if is_empty_slot(v)}
 
 
+_CACHEY = re.compile(r"cache|memo|precomp|lookup|(^|_)lut($|_)", re.I)
+
+
 def key_is_internal(key):
-    """underscore-prefixed module/class attribute = internal state, not a constant."""
+    """underscore-prefixed module/class attribute, or a name that says it is a
+    cache (CACHE, memo, precomputed, lookup, LUT) = internal state, not a constant:
+    its changes are probes, and what it does to results is judged by H3."""
     name = key.split(":", 1)[1]
-    return any(p.startswith("_") for p in name.split("."))
+    return any(p.startswith("_") for p in name.split(".")) or bool(_CACHEY.search(name))
 
 
 def constant_field_objects():
